@@ -41,7 +41,7 @@ class Job:
                  defines=(), unwind=6, shim=True, union_struct=False,
                  kind="proof", canary=False, timeout=600, dfcc=None,
                  functions=(), bound="", cbmc_flags=(), harness_unwind=160,
-                 native_sources=None, expect_fail=None, group=None, require=(), include_dirs=()):
+                 native_sources=None, expect_fail=None, group=None, require=(), include_dirs=(), strip=None):
         self.name = name
         self.harness = harness if os.path.isabs(harness) else os.path.join(VERIF, "harness", harness)
         self.entry = entry
@@ -63,7 +63,8 @@ class Job:
         self.expect_fail = expect_fail  # regex: obligations that MUST fail (negative control)
         self.group = group or entry
         self.require = list(require)
-        self.include_dirs = list(include_dirs)  # regexes: obligations that must exist and be SUCCESS
+        self.include_dirs = list(include_dirs)
+        self.strip = strip or {}   # {repo source: [functions whose bodies are removed and supplied by the harness as contracts]}  # regexes: obligations that must exist and be SUCCESS
 
 
 def sh(cmd, timeout=None, cwd=None, env=None, mem=True):
@@ -185,8 +186,24 @@ def run_job(job, canary=False):
                defines=job.defines)
     t0 = time.time()
     gb = os.path.join(wd, "h.gb")
+    srcs = list(job.sources)
+    for n_, (src, fns) in enumerate(sorted(job.strip.items())):
+        src = src if os.path.isabs(src) else os.path.join(SRC, src)
+        o1 = os.path.join(wd, "strip%d.gb" % n_)
+        o2 = os.path.join(wd, "strip%d_s.gb" % n_)
+        rc, out, err, _ = sh(["goto-cc"] + compile_flags(job, canary) + ["-c", src, "-o", o1], timeout=300)
+        if rc == 0:
+            gi = ["goto-instrument"]
+            for f in fns:
+                gi += ["--remove-function-body", f]
+            rc, out, err, _ = sh(gi + [o1, o2], timeout=300)
+        if rc != 0:
+            res["detail"] = "strip of %s failed: %s" % (src, (err or out)[-800:])
+            res["seconds"] = time.time() - t0
+            return res
+        srcs = [x for x in srcs if x != src] + [o2]
     cc = ["goto-cc"] + compile_flags(job, canary) + ["--function", job.entry, job.harness] + \
-        job.sources + job.stubs + ["-o", gb]
+        srcs + job.stubs + ["-o", gb]
     rc, out, err, _ = sh(cc, timeout=300)
     if rc != 0:
         res["detail"] = "goto-cc failed: " + (err or out)[-1500:]
@@ -463,6 +480,7 @@ def run_property(prop, jobs, tier, level="proof", assumptions=(), trusted_base=(
             k = match_known(known, j.name, ent)
             if k:
                 known_hits.append((j, ent, k))
+                obligations -= 1      # listed finding: reported separately, not part of the proof claim
             else:
                 violations.append((j, ent))
     for (g, k), v in reach_seen.items():
